@@ -57,6 +57,10 @@ def new_op(rng, kind, idn=0, small=False, **over):
         op["signal"] = "index"
         if kind.startswith("Sinc"):
             op["probe"] = "linear"
+            if rng.random() < 0.12:
+                # a caller-supplied interpolator may have ANY length (odd, not a multiple of 8)
+                op["L"] = rng.choice([9, 15, 33, 7, 21, 12, 30])
+                op["Lraw"] = True
         # keep chunk/r bounded (streams must stay < 2^20 frames, scripts cheap)
         while op["chunk"] / float(Fraction(r)) > 20000 or op["chunk"] * float(Fraction(r)) > 20000:
             op["chunk"] = max(1, op["chunk"] // 2)
